@@ -1231,6 +1231,17 @@ def shapes():
         ("name-symbols", lambda d: "a" + "-b" * d), ("at-literal", lambda d: "@\"P" + "1" * d + "D\""), ("digits", lambda d: "1" * d + "." + "1" * d),
         ("flatten", lambda d: "flatten(" + "[" * d + "1" + "]" * d + ")"), ("string-of-nested", lambda d: "string(" + "[" * d + "1" + "]" * d + ")"),
         ("eq-nested", lambda d: "[" * d + "1" + "]" * d + " = " + "[" * d + "1" + "]" * d),
+        # equality (and what rests on it) of deeply nested values whose innermost entries are equal / different / of kinds that have no
+        # equality (ranges, functions, a number against a string): one pass over the structure whatever the answer is
+        ("eq-ctx", lambda d: "{a:" * d + "1" + "}" * d + " = " + "{a:" * d + "1" + "}" * d),
+        ("eq-ctx-differs", lambda d: "{a:" * d + "1" + "}" * d + " != " + "{a:" * d + "2" + "}" * d),
+        ("eq-ctx-ranges", lambda d: "{a:" * d + "[1..2]" + "}" * d + " = " + "{a:" * d + "[1..2]" + "}" * d),
+        ("eq-ctx-mixed", lambda d: "{a:" * d + "1" + "}" * d + " = " + "{a:" * d + "\"s\"" + "}" * d),
+        ("eq-ctx-functions", lambda d: "{a:" * d + "abs" + "}" * d + " != " + "{a:" * d + "abs" + "}" * d),
+        ("eq-ctx-list-mixed", lambda d: "{a:[" * d + "[1..2]" + "]}" * d + " = " + "{a:[" * d + "[1..2]" + "]}" * d),
+        ("contains-ctx-ranges", lambda d: "list contains([" + "{a:" * d + "[1..2]" + "}" * d + "], " + "{a:" * d + "[1..2]" + "}" * d + ")"),
+        ("distinct-ctx-mixed", lambda d: "count(distinct values([" + "{a:" * d + "1" + "}" * d + ", " + "{a:" * d + "\"s\"" + "}" * d + "]))"),
+        ("in-ctx-ranges", lambda d: "{a:" * d + "[1..2]" + "}" * d + " in [" + "{a:" * d + "[1..2]" + "}" * d + "]"),
     ]
 
 
